@@ -226,7 +226,7 @@ pub fn run(tier: Tier, seed: u64) -> i32 {
         }
         Ok(())
     });
-    let n = ctx.pick(300_000, 4_000_000);
+    let n = ctx.pick(1_000_000, 6_000_000);
     ctx.par_random(n, 180, 3, |tape, l| {
         let (g, input, alpha) = decode(tape);
         debug_assert!(wf(&g), "ill-formed: {}", render(&g));
